@@ -68,6 +68,8 @@ def decode(sel, cur):
             doc_default, code_default = "", False
         params.append((f"p{i}", hint, doc, doc_default, code_default))
     ret_hint = [None, T1, T2, (T1, T2), (T2, T1)][rd(sel, cur, 5)]
+    if isinstance(ret_hint, tuple) and not THOROUGH and (n > 1 or params[0][1] is not None or params[0][2] is not None):
+        raise OutOfRange  # quick tier: tuple return hints are combined with the plainest parameter list only
     nres = rd(sel, cur, (2 if isinstance(ret_hint, tuple) else MAXR) + 1)
     res_docs = [[None, T1, T2][rd(sel, cur, 3)] for _ in range(nres)]
     pref = [TypeSourcePreference.CODE, TypeSourcePreference.DOCSTRING][rd(sel, cur, 2)]
